@@ -380,6 +380,10 @@ class FunctionVerifier:
 
     def ev_IfExp(self, e, st, spec):
         c = self.truth(self.ev(e.test, st, spec), e.test)
+        if c == "true":
+            return self.ev(e.body, st, spec)
+        if c == "false":
+            return self.ev(e.orelse, st, spec)
         st.pc.append(c)
         a = self.ev(e.body, st, spec)
         st.pc[-1] = NOT(c)
@@ -1048,3 +1052,88 @@ def verify_function(run, relpath, qualname, contract, spec, callees=None, repo=N
     for l in fv.used_lemmas:
         run.trust(f"lemma {l} (Lean: {spec.lemmas[l].get('lean', '?')})")
     return ctx, results
+
+
+# ------------------------------------------------------------------------------ fragments
+class _AttrToName(ast.NodeTransformer):
+    """mechanical abstraction of field reads/writes as variables: `branch.frequency` -> `branch__frequency`"""
+
+    def __init__(self, mapping):
+        self.mapping = mapping
+
+    def visit_Attribute(self, node):
+        src = ast.unparse(node)
+        if src in self.mapping:
+            return ast.copy_location(ast.Name(id=self.mapping[src], ctx=node.ctx), node)
+        return self.generic_visit(node)
+
+
+def verify_fragment(run, relpath, qualname, name, select, store_sorts, requires, ensures, attr_map=None,
+                    spec=None, expect_statements=1):
+    """Hoare triple {requires} S {ensures} for the statement(s) S selected from the REAL function
+    body by `select(stmt) -> bool`; attribute expressions listed in attr_map are abstracted as
+    variables.  Returns True when every VC was discharged."""
+    fid = f"{relpath}:{qualname}"
+    oname = f"{fid}/fragment/{name}"
+    try:
+        contract = {"params": [], "ensures": [], "fields": {}}
+        fv = FunctionVerifier(relpath, qualname, contract, spec or SpecEnv())
+        fv.used_lemmas = set()
+        stmts = [n for n in ast.walk(fv.func) if isinstance(n, ast.stmt) and select(n)]
+        if len(stmts) != expect_statements:
+            run.undecided_ob(oname, "pyvc", "vcgen", f"contract no longer binds: {len(stmts)} statement(s) match the selector "
+                             f"(expected {expect_statements})")
+            return False
+        st = State()
+        for nm, sort in store_sorts.items():
+            st.store[nm] = fv.fresh_value(sort, nm)
+            st.old[nm] = st.store[nm]
+        for r in requires:
+            st.assume(fv.truth(fv.ev(ast.parse(r, mode="eval").body, st, True)))
+        fv.ctx.covers.append((oname + "/cover", list(st.pc)))
+        final = {}
+
+        def k(s_end):
+            final["st"] = s_end
+
+        body = [(_AttrToName(attr_map or {}).visit(ast.parse(ast.unparse(s)).body[0])) for s in stmts]
+        for b, orig in zip(body, stmts):
+            ast.copy_location(b, orig)
+            ast.fix_missing_locations(b)
+        fv.block(body, st, k, LoopCtx(None, None))
+        if "st" not in final:
+            run.undecided_ob(oname, "pyvc", "vcgen", "fragment does not fall through")
+            return False
+        end = final["st"]
+        for j, e in enumerate(ensures):
+            t = fv.truth(fv.ev(ast.parse(e, mode="eval").body, end, True))
+            fv.ctx.vcs.append(VC(f"{oname}/ensures[{j}]", end.pc, t, "postcondition", stmts[0].lineno))
+    except (Unsupported, ContractError, KeyError) as e:
+        run.undecided_ob(oname, "pyvc", "vcgen", f"{type(e).__name__}: {e}")
+        return False
+    ctx = fv.ctx
+    run.function(fid, fv.func_source)
+    ok = True
+    results = smt.solve_many([(vc.name, render(ctx, vc.hyps, vc.goal)) for vc in ctx.vcs], workers=6)
+    for vc in ctx.vcs:
+        r = results[vc.name]
+        nm = vc.name if vc.name.startswith(oname) else f"{oname}/{vc.kind}@L{vc.lineno}"
+        if r.verdict == "unsat":
+            run.discharged(nm, "pyvc", r.solver, r.seconds, function=fid,
+                           sample={"statement": ast.unparse(stmts[0])[:120], "goal": vc.goal[:160]})
+        elif r.verdict == "sat":
+            ok = False
+            run.failed(nm, "pyvc", r.solver, what=f"statement `{ast.unparse(stmts[0])[:100]}` of {fid} does not establish "
+                       f"its post-condition: {vc.goal[:140]}", counterexample={"model": r.model},
+                       replay={"kind": "smt-model", "function": fid}, reproduced=None, solver_output=r.output[:2000],
+                       seconds=r.seconds)
+        else:
+            ok = False
+            run.undecided_ob(nm, "pyvc", r.solver, f"solver answered {r.verdict}", r.seconds)
+    for cname, hyps in ctx.covers:
+        r = smt.solve(render(ctx, hyps, None), want_model=False, t1=10, t2=10)
+        if r.verdict == "unsat":
+            run.broken_ob(cname, "vacuity guard: contradictory pre-condition")
+        else:
+            run.vacuity_covers += 1
+    return ok
